@@ -284,6 +284,8 @@ def run_instance(inst, tier="quick", scratch="/var/tmp", small=False, mutant=Non
         if rc != 0 or not os.path.exists(os.path.join(work, "b.gb")):
             raise Machinery("goto-instrument --dfcc failed: " + _tail(out))
         flags = list(inst.get("flags", ["--bounds-check", "--pointer-check"]))
+        if "--sat-solver" in flags:
+            res["backend"] = "cbmc 6.11 SAT (%s)" % flags[flags.index("--sat-solver") + 1]
         for x in inst.get("unwind_loops", []):
             pass
         if concrete:
